@@ -630,7 +630,7 @@ pub const PROP: Prop = Prop {
     generate,
     execute,
     shrink,
-    rule: "one run = (3 of 4) one program from the factor product {12 loop forms x 9 placements | 16 recursion shapes (plain, try, mutual, method, derived / base constructors, super argument, bound, call/apply, Reflect, getter, Proxy apply, tagged template, async arrow, generator delegation, static + Reflect.construct)} x 59 synchronous re-entry routes (9 of them with a builtin or destructuring holding an open iterator whose return() must not run) x {none | 11 promise-job routes} x 5 wrapper shapes at up to 3 nesting levels x evaluation mode (eval / budgeted eval) with exactly one active limit (loop, recursion or stack) whose value is drawn relative to the bomb size into a must-stop, must-pass or boundary band; executed limited and (if the bomb is bounded) unlimited; or (1 of 4) one or two of 38 feature kernels, or one of C16's 1493 generated promise / async-generator programs, under a seeded loop / recursion / stack limit, where nothing is predicted and the limited run must equal the unlimited one or end in a limit error of the right kind with a trace that is a prefix of it; non-trivial = the limit fault fired; distinct = distinct (factor tags, band, budget, limit value, bomb steps executed, completion) tuples",
+    rule: "one run = (3 of 4) one program from the factor product {12 loop forms x 9 placements | 16 recursion shapes (plain, try, mutual, method, derived / base constructors, super argument, bound, call/apply, Reflect, getter, Proxy apply, tagged template, async arrow, generator delegation, static + Reflect.construct)} x 59 synchronous re-entry routes (9 of them with a builtin or destructuring holding an open iterator whose return() must not run) x {none | 11 promise-job routes} x 5 wrapper shapes at up to 3 nesting levels x evaluation mode (eval / budgeted eval) with exactly one active limit (loop, recursion or stack) whose value is drawn relative to the bomb size into a must-stop, must-pass or boundary band; executed limited and (if the bomb is bounded) unlimited; or (1 of 4) one or two of 38 feature kernels, or one of C16's 2493 generated promise / async-generator programs, under a seeded loop / recursion / stack limit, where nothing is predicted and the limited run must equal the unlimited one or end in a limit error of the right kind with a trace that is a prefix of it; non-trivial = the limit fault fired; distinct = distinct (factor tags, band, budget, limit value, bomb steps executed, completion) tuples",
     real: &["lexer/parser/compiler/VM/builtins", "SimpleJobExecutor", "RuntimeLimits"],
     stub: &["SimClock", "SimHooks", "print/tick natives (tick has a hard cap that returns an engine-level error: in-process watchdog)"],
     assumptions: &[
